@@ -126,12 +126,16 @@ def run(ck):
         ck.anchor_missing("3", "T9-layout", "sys::cvt_interest")
     else:
         ci, interest_arg, token_arg, token_is_inner = eb
-        for fld in ("readable", "writable"):
+        # `Event::new(key, readable, writable)` builds the same event as `Event::none(key)` + the two field stores
+        ctor3 = [c for c in T.calls(ci, name=("new",), path="polling::Event") if len(c.args) == 3]
+        for k_, fld in enumerate(("readable", "writable")):
             st_ = [(i, st) for i, j, st in T.stores_to_field(ci, fld)]
             ok = bool(st_) and all(st["rv"]["r"] == "use" and T.resolves_to_arg(ci, st["rv"]["o"], interest_arg) and T.path_has(ci, st["rv"]["o"], "." + fld) for i, st in st_)
+            if not st_ and ctor3:
+                ok = all(T.resolves_to_arg(ci, c.args[1 + k_], interest_arg) and T.path_has(ci, c.args[1 + k_], "." + fld) for c in ctor3)
             ck.verdict(ok, "3", "T9-layout", ci, "event.%s=interest.%s" % (fld, fld), "the poller event's %s is the interest's %s" % (fld, fld), "cvt_interest does not copy `%s` from the requested interest (that interest is never armed / the wrong one is)" % fld, site=ci.where())
         nn = T.calls(ci, name=("none", "new", "all", "readable", "writable"), path="polling::Event")
-        ok = bool(nn) and all(T.tainted_by_call(ci, c.args[0], [x.bb for x in T.calls(ci, name=("into", "from"))]) or T.path_has(ci, c.args[0], ".inner") or (token_is_inner and T.resolves_to_arg(ci, c.args[0], token_arg)) for c in nn) and all(c.name == "none" for c in nn)
+        ok = bool(nn) and all(T.tainted_by_call(ci, c.args[0], [x.bb for x in T.calls(ci, name=("into", "from"))]) or T.path_has(ci, c.args[0], ".inner") or (token_is_inner and T.resolves_to_arg(ci, c.args[0], token_arg)) for c in nn) and all(c.name == "none" or (c.name == "new" and len(c.args) == 3) for c in nn)
         conv = T.calls(ci, name=("into", "from"))
         ok = ok and all(T.resolves_to_arg(ci, c.args[0], token_arg) and (token_is_inner or T.path_has(ci, c.args[0], ".inner")) for c in conv)
         ck.verdict(ok, "3", "T9-layout", ci, "event.key=usize::from(token.inner)", "the poller key is the packed token of this registration, and the event starts from Event::none", "cvt_interest does not use the packed token as the poller key / does not start from an empty event", site=ci.where())
